@@ -7,7 +7,7 @@ props = {json.loads(l)["id"]: json.loads(l) for l in open("/verif/properties.jso
 p = props[pid]
 import glob, os
 prev = []
-for mf in sorted(glob.glob(f"/verif/seeded/{pid}-*/meta.json")):
+for mf in sorted(glob.glob(f"/verif/seeded/_staging/{pid}?/m*/meta.json")):
     m = json.load(open(mf)); prev.append("  - " + (m.get("summary") or "")[:400])
 prev_text = ("\nOther people have ALREADY produced the following changes for this property; do NOT repeat them or trivial variations of them -\npick different code sites and different mechanisms:\n" + "\n".join(prev) + "\n") if prev else ""
 print(f"""You are helping test a verification effort for the open-source project g-plane/swc-plugin-vue-jsx
